@@ -45,6 +45,9 @@ def params(draw, tier):
     p["method"] = draw(st.sampled_from([None, None, "lsq", "lsq_linear"]))
     p["fit"] = draw(st.sampled_from(["dlite", "taubinSVD"]))
     p["noise_geom"] = draw(st.sampled_from([0.0, 0.05, 0.15]))
+    # far from equilibrium: a third of the junctions pushed back along one of their interfaces until all three
+    # interfaces leave inside one half-plane (reflex corner in the opposite cell)
+    p["distort"] = draw(st.sampled_from([None, None, draw(st.integers(0, 2 ** 32 - 1))]))
     return p
 
 
@@ -59,6 +62,27 @@ def check_case(p, ctx):
         sp = series.min_spacing(t0, js_all)
         J = {j: z + complex(*rng.normal(size=2)) * p["noise_geom"] * sp * 0.3 for j, z in t0.J.items()}
         t0 = series.moved(t0, J)
+    if p.get("distort") is not None:
+        from .c07 import _simple
+        rng2 = PRNG(p["distort"])
+        J = dict(t0.J)
+        moved_n = 0
+        for j, rs in sorted(t0.junction_ridges().items()):
+            if len(rs) >= 3 and rng2.uniform() < 0.35:
+                ri = rs[int(rng2.integers(0, len(rs)))]
+                J[j] = t0.J[j] - 0.6 * min(abs(t0.J[t0.ridges[r].a] - t0.J[t0.ridges[r].b]) for r in rs) * t0.tangent(ri, j)
+                moved_n += 1
+        t_d = series.moved(t0, J)
+        ok = True
+        for c in t_d.cells:
+            toks = t_d.cell_polygon(c, lambda k_: nint[k_])
+            pts = [t_d.J[tok[1]] if tok[0] == "J" else t_d.points(tok[1], nint[tok[1]])[tok[2]] for tok in toks]
+            if not _simple(pts):
+                ok = False
+                break
+        if ok and moved_n:
+            t0 = t_d
+            ctx.count("junctions-with-all-interfaces-in-a-half-plane")
     q = dict(p["pose"])
     s = 10.0 ** q.get("logscale", 0.0)
     t1 = t0.similarity(scale=s, reflect=bool(q.get("reflect")))
@@ -152,7 +176,14 @@ def check_case(p, ctx):
     if not infer.full_column_rank(M, 1e-6):
         ctx.skip("augmented system rank deficient")
         return
-    call(fsys.build_force_matrix, when=k, circle_fit_method=p["fit"], angle_limit=np.inf)
+    # half of the cases build with the documented default limit (pi), which excludes nothing on these tissues: no
+    # junction of an arc / line tissue in general position has two exactly antiparallel interface directions
+    kw_b = {"circle_fit_method": p["fit"]}
+    if p["tseed"] % 2 == 0:
+        kw_b["angle_limit"] = np.inf
+    else:
+        ctx.count("built-with-default-angle-limit")
+    call(fsys.build_force_matrix, when=k, **kw_b)
     fm = fsys.force_matrices[k]
     try:
         A_obs = infer.observed_matrix(fm, S.R[k], cols, rows)
